@@ -119,6 +119,13 @@ def suite_pairs(ctx):
                     if got != want:
                         s.fail(dict(rec, observed=str(got), required=str(want)))
                         continue
+                    if rng.random() < 0.2:
+                        # closing and opening the connection again is no session change: the timing in force stays
+                        client.close(); client.open()
+                        t = client.get_session_timing()
+                        if (t.p2_server_max, t.p2_star_server_max) != want:
+                            s.fail(dict(rec, observed='after close() / open(): %s' % ((t.p2_server_max, t.p2_star_server_max),), required=str(want)))
+                            continue
                     # next request waits the adopted P2, then P2* after a 0x78
                     conn.script = [(0, b'\x7f\x3e\x78')]
                     conn.log = []
